@@ -5,6 +5,7 @@ import VlsModel.Gen.FnTxUtil
 import VlsModel.Gen.FnHtlcTx
 import VlsModel.Gen.FnOnchainWrap
 import VlsModel.Gen.FnChannelSweep
+import VlsModel.Gen.FnHandlerSweep
 import VlsModel.Lemmas.NodeWalletFn
 import VlsModel.Lemmas.Sweep
 import VlsModel.Lemmas.FnGen
@@ -1161,5 +1162,102 @@ theorem C09_fn_sign_htlc_tx_signs (val : Val) (cs : CS)
       exact ⟨fr, htlc, sh, ty, rfl, by cases u; exact hv, h.symm⟩
 
 end ChannelSweep
+
+/-! ## Round 9: the protocol handler's sweep helpers (`vls-protocol-signer/src/handler.rs`, `Gen/FnHandlerSweep.lean`)
+
+`sign_delayed_payment_to_us`, `sign_remote_htlc_to_us`, `sign_penalty_to_us`, `sign_local_htlc_tx`: the bodies behind the arms
+`SignDelayedPaymentToUs` / `SignAnyDelayedPaymentToUs`, `SignRemoteHtlcToUs` / `SignAnyRemoteHtlcToUs`, `SignPenaltyToUs` /
+`SignAnyPenaltyToUs`, `SignLocalHtlcTx` / `SignAnyLocalHtlcTx`.  For every instantiation of the externals: **the amount the
+channel is asked to sign for is the value of the `witness_utxo` of the PSBT input with the signed index** (panic if the
+index is out of range or the input has no witness utxo), the redeemscript is the message's `wscript`, the wallet path is the
+first output's derivation path (panic without outputs; evaluated after the channel lookup), the channel method is the one
+of the same sweep kind, and the reply carries that signature. -/
+section HandlerSweep
+open VlsModel.Gen.FnHandlerSweep
+
+variable {Nd Cid Tx Scr Oct SB DP Ch Sig PKb PK DS SK ET : Type}
+
+theorem C09_fn_sign_delayed_payment_to_us (SO : Oct → Scr) (XP : Psbt Scr → List DP) (RC : Nd → Cid → Rs.M Ch)
+    (SD : Ch → Tx → Nat → Nat → Scr → Nat → DP → Rs.M Sig) (RA : Sig → SB)
+    (node : Nd) (cid : Cid) (n : Nat) (tx : Tx) (psbt : Psbt Scr) (wscript : Oct) (input : Nat) :
+    sign_delayed_payment_to_us (ext_script_of_octets := SO) (ext_extract_psbt_output_paths := XP) (ext_Node_ready_channel := RC)
+        (ext_Channel_sign_delayed_sweep := SD) (ext_sign_tx_reply_all := RA) node cid n tx psbt wscript input
+      = (do let o ← Rs.index psbt.inputs input
+            let u ← Rs.unwrap o.witness_utxo
+            let ch ← RC node cid
+            let path ← Rs.index (XP psbt) 0
+            let sig ← SD ch tx input n (SO wscript) u.value path
+            pure (RA sig)) := rfl
+
+theorem C09_fn_sign_remote_htlc_to_us (PB : PKb → Rs.M PK) (SO : Oct → Scr) (XP : Psbt Scr → List DP) (RC : Nd → Cid → Rs.M Ch)
+    (SH : Ch → Tx → Nat → PK → Scr → Nat → DP → Rs.M Sig) (RA : Sig → SB)
+    (node : Nd) (cid : Cid) (point : PKb) (tx : Tx) (psbt : Psbt Scr) (wscript : Oct) (anchors : Bool) (input : Nat) :
+    sign_remote_htlc_to_us (ext_pubkey_of_bytes := PB) (ext_script_of_octets := SO) (ext_extract_psbt_output_paths := XP)
+        (ext_Node_ready_channel := RC) (ext_Channel_sign_counterparty_htlc_sweep := SH) (ext_sign_tx_reply_all := RA)
+        node cid point tx psbt wscript anchors input
+      = (do let pt ← PB point
+            let o ← Rs.index psbt.inputs input
+            let u ← Rs.unwrap o.witness_utxo
+            let ch ← RC node cid
+            let path ← Rs.index (XP psbt) 0
+            let sig ← SH ch tx input pt (SO wscript) u.value path
+            pure (RA sig)) := rfl
+
+theorem C09_fn_sign_penalty_to_us (SB' : DS → Rs.M SK) (SO : Oct → Scr) (XP : Psbt Scr → List DP) (RC : Nd → Cid → Rs.M Ch)
+    (SJ : Ch → Tx → Nat → SK → Scr → Nat → DP → Rs.M Sig) (RA : Sig → SB)
+    (node : Nd) (cid : Cid) (secret : DS) (tx : Tx) (psbt : Psbt Scr) (wscript : Oct) (input : Nat) :
+    sign_penalty_to_us (ext_secret_of_bytes := SB') (ext_script_of_octets := SO) (ext_extract_psbt_output_paths := XP)
+        (ext_Node_ready_channel := RC) (ext_Channel_sign_justice_sweep := SJ) (ext_sign_tx_reply_all := RA)
+        node cid secret tx psbt wscript input
+      = (do let sk ← SB' secret
+            let o ← Rs.index psbt.inputs input
+            let u ← Rs.unwrap o.witness_utxo
+            let ch ← RC node cid
+            let path ← Rs.index (XP psbt) 0
+            let sig ← SJ ch tx input sk (SO wscript) u.value path
+            pure (RA sig)) := rfl
+
+theorem C09_fn_sign_local_htlc_tx (SO : Oct → Scr) (RC : Nd → Cid → Rs.M Ch)
+    (SHT : Ch → Tx → Nat → Option PK → Scr → Nat → Scr → Rs.M (TypedSignature Sig ET)) (RT : Sig → ET → SB)
+    (node : Nd) (cid : Cid) (n : Nat) (tx : Tx) (psbt : Psbt Scr) (wscript : Oct) (anchors : Bool) (input : Nat) :
+    sign_local_htlc_tx (ext_script_of_octets := SO) (ext_Node_ready_channel := RC) (ext_Channel_sign_holder_htlc_tx := SHT)
+        (ext_sign_tx_reply_typed := RT) node cid n tx psbt wscript anchors input
+      = (do let o ← Rs.index psbt.inputs input
+            let u ← Rs.unwrap o.witness_utxo
+            let out0 ← Rs.index psbt.outputs 0
+            let ws ← Rs.unwrap out0.witness_script
+            let ch ← RC node cid
+            let sig ← SHT ch tx n none (SO wscript) u.value ws
+            pure (RT sig.sig sig.typ)) := rfl
+
+/-- a reply leaves `sign_delayed_payment_to_us` only with a signature the channel made for **the value the PSBT states for
+    the signed input**, the message's script and the first output's path -/
+theorem C09_fn_sign_delayed_payment_to_us_signed (SO : Oct → Scr) (XP : Psbt Scr → List DP) (RC : Nd → Cid → Rs.M Ch)
+    (SD : Ch → Tx → Nat → Nat → Scr → Nat → DP → Rs.M Sig) (RA : Sig → SB)
+    (node : Nd) (cid : Cid) (n : Nat) (tx : Tx) (psbt : Psbt Scr) (wscript : Oct) (input : Nat) (reply : SB)
+    (h : sign_delayed_payment_to_us (ext_script_of_octets := SO) (ext_extract_psbt_output_paths := XP) (ext_Node_ready_channel := RC)
+        (ext_Channel_sign_delayed_sweep := SD) (ext_sign_tx_reply_all := RA) node cid n tx psbt wscript input = .ok reply) :
+    ∃ o u ch path sig, psbt.inputs[input]? = some o ∧ o.witness_utxo = some u ∧ RC node cid = .ok ch ∧ (XP psbt)[0]? = some path
+      ∧ SD ch tx input n (SO wscript) u.value path = .ok sig ∧ reply = RA sig := by
+  rw [C09_fn_sign_delayed_payment_to_us] at h
+  cases ho : psbt.inputs[input]? with
+  | none => simp [Rs.index, ho, Rs.panic, bind, Except.bind] at h
+  | some o =>
+    cases hu : o.witness_utxo with
+    | none => simp [Rs.index, ho, Rs.unwrap, hu, Rs.panic, bind, Except.bind, pure, Except.pure] at h
+    | some u =>
+      cases hc : RC node cid with
+      | error e => simp [Rs.index, ho, Rs.unwrap, hu, hc, bind, Except.bind, pure, Except.pure] at h
+      | ok ch =>
+        cases hp : (XP psbt)[0]? with
+        | none => simp [Rs.index, ho, Rs.unwrap, hu, hc, hp, Rs.panic, bind, Except.bind, pure, Except.pure] at h
+        | some path =>
+          cases hs : SD ch tx input n (SO wscript) u.value path with
+          | error e => simp [Rs.index, ho, Rs.unwrap, hu, hc, hp, hs, bind, Except.bind, pure, Except.pure] at h
+          | ok sig =>
+            simp [Rs.index, ho, Rs.unwrap, hu, hc, hp, hs, bind, Except.bind, pure, Except.pure] at h
+            exact ⟨o, u, ch, path, sig, rfl, hu, rfl, rfl, hs, h.symm⟩
+
+end HandlerSweep
 
 end VlsModel.Props.C09Fn
